@@ -269,9 +269,14 @@ def check(model, rep, tier):
           core.dotted(c.func) == '_wrap_into_factory']
   ok = len(call) == 1
   if ok:
-    a = [core.norm(x) for x in call[0].args]
-    ok = a[0] == cr.params()[0] and a[1] == 'self._name' and a[4:6] == [
-        'self._freevars', 'self._extra_locals.keys()']
+    # arguments by the parameter they bind to (positional or keyword)
+    from sa import inline
+    bound = inline._bind(wf.node, call[0], False)
+    ok = bound is not None
+    if ok:
+      a = {k: core.norm(v) for k, v in bound.items()}
+      ok = a.get(wp[0]) == cr.params()[0] and a.get(wp[1]) == 'self._name' and \
+          a.get(wp[4]) == 'self._freevars' and a.get(wp[5]) == 'self._extra_locals.keys()'
   rep.check(ok, 'IFACE-FACTORY', '%s:wiring' % cr.site,
             'create() must wrap the nodes with the stored name, free variables '
             'and extra-local names', line=cr.node.lineno)
